@@ -410,7 +410,6 @@ struct Node {
     int pend = 0, pend_left = 0;    //!< 1 = finish, 2 = block
 };
 
-enum { BP_NONE, BP_EXPECTED, BP_OPTIONAL, BP_FORBID_STOP, BP_FORBID_RESET };
 
 struct Tree {
     const CaseSpec &cs;
@@ -435,7 +434,8 @@ struct Tree {
     bool fin_pending = false, fin_result = false;
     int fin_tick = 0;
     int fin_lost_by = 0;            //!< 1: pending finish callback withdrawn by reset
-    int block_state = BP_NONE, block_tick = 0;
+    int blk_expected = 0, blk_optional = 0, blk_forbid_stop = 0, blk_forbid_reset = 0;   //!< block callbacks of the root in flight
+    int block_tick = 0;
     int user_finals = 0, root_final_events = 0;
     int resume_at = -1;             //!< tick of the harness's scheduled resume after a block notification
     int resume_delay = 0;
@@ -903,7 +903,7 @@ struct Tree {
             } else {
                 fin_pending = true; fin_result = succ; fin_tick = tick; fin_lost_by = 0;
                 root_done_ticks = 0;
-                if (block_state == BP_EXPECTED) block_state = BP_OPTIONAL;
+                blk_optional += blk_expected; blk_expected = 0;
                 close_epoch(true, succ);
             }
             break;
@@ -917,7 +917,7 @@ struct Tree {
                 if (nd[p].ms == M_RUN || nd[p].ms == M_PAUSE) N.stopped_by_running_parent = 1;
             } else {
                 if (!in_user_stop) viol("lifecycle/root-stopped-by-itself", "root got onStop outside a stop() call");
-                if (block_state == BP_EXPECTED) { block_state = BP_FORBID_STOP; cnt("stop_with_block_notification_queued"); }
+                if (blk_expected) { blk_forbid_stop += blk_expected; blk_expected = 0; cnt("stop_with_block_notification_queued"); }
                 root_done_ticks = 0;
                 close_epoch(false, false);
             }
@@ -934,7 +934,7 @@ struct Tree {
             N.ms = M_PAUSE;
             blocks_seen = true;
             if (N.expect == X_START || N.expect == X_FINISH) N.paused_between = true;
-            if (p < 0) { block_state = BP_EXPECTED; block_tick = tick; }
+            if (p < 0) { if (blk_expected++) cnt("two_block_notifications_of_the_root_in_flight"); block_tick = tick; }
             break;
         case E_RESUME:
             if (N.ms != M_PAUSE) viol("lifecycle/resume-hook-while-not-paused", nname(n) + " got onResume while " + kMsName[N.ms]);
@@ -949,7 +949,11 @@ struct Tree {
             N.ms = M_IDLE; N.expect = X_NONE; N.cont_running = false; N.finals = 0;
             if (p < 0) {
                 if (fin_pending) { fin_pending = false; fin_lost_by = 1; cnt("reset_with_finish_notification_queued"); }
-                if (block_state == BP_EXPECTED || block_state == BP_OPTIONAL) { block_state = BP_FORBID_RESET; cnt("reset_with_block_notification_queued"); }
+                if (blk_expected || blk_optional || blk_forbid_stop) {
+                    blk_forbid_reset += blk_expected + blk_optional + blk_forbid_stop;
+                    blk_expected = blk_optional = blk_forbid_stop = 0;
+                    cnt("reset_with_block_notification_queued");
+                }
                 root_done_ticks = -1;
                 close_epoch(false, false);
             }
@@ -1000,19 +1004,17 @@ struct Tree {
     void root_block_cb() {
         rec(E_ROOT_BLOCK_CB, 0);
         cnt("root_block_callback");
-        switch (block_state) {
-            case BP_EXPECTED: case BP_OPTIONAL: break;
-            case BP_FORBID_STOP:
-                viol("notify/stale-block-callback-after-stop", "the root's block callback was delivered after the root had been stopped");
-                break;
-            case BP_FORBID_RESET:
-                viol("notify/stale-block-callback-after-reset", "the root's block callback was delivered after the root had been reset");
-                break;
-            default:
-                viol("notify/block-callback-unexpected", "the root's block callback was delivered without a block of the root");
-        }
-        bool was_expected = block_state == BP_EXPECTED;
-        block_state = BP_NONE;
+        bool was_expected = false;
+        if (blk_expected) { --blk_expected; was_expected = true; }
+        else if (blk_optional) --blk_optional;
+        else if (blk_forbid_stop) {
+            --blk_forbid_stop;
+            viol("notify/stale-block-callback-after-stop", "the root's block callback was delivered after the root had been stopped");
+        } else if (blk_forbid_reset) {
+            --blk_forbid_reset;
+            viol("notify/stale-block-callback-after-reset", "the root's block callback was delivered after the root had been reset");
+        } else
+            viol("notify/block-callback-unexpected", "the root's block callback was delivered without a block of the root");
         if (was_expected && alive) {
             if (resume_delay == 0) { cnt("resume_inside_block_callback"); do_op(OP_RESUME, "auto"); }
             else resume_at = tick + resume_delay;
@@ -1150,7 +1152,7 @@ struct Tree {
     }
 
     bool has_future_activity() const {
-        if (fin_pending || block_state == BP_EXPECTED || resume_at >= 0) return true;
+        if (fin_pending || blk_expected || resume_at >= 0) return true;
         for (size_t i = 0; i < nd.size(); ++i) {
             const Node &N = nd[i];
             const Action::State st = N.act->state();
@@ -1197,8 +1199,8 @@ struct Tree {
             fin_pending = false;
             viol("notify/finish-callback-missing", "the root finished but its finish callback was not delivered within 3 ticks");
         }
-        if (block_state == BP_EXPECTED && tick - block_tick > 3) {
-            block_state = BP_NONE;
+        if (blk_expected && tick - block_tick > 3) {
+            blk_expected = 0;
             viol("notify/block-callback-missing", "the root blocked but its block callback was not delivered within 3 ticks");
         }
         // final hooks
